@@ -61,10 +61,50 @@ func balanceArithmeticGuarded(c *Ctx, rule string, only map[*ssa.Function]bool) 
 					want1 := leAtom("cmp(" + x + "," + y + ")").String()           // cmp(x,y) >= 0
 					want2 := leAtom("cmp(" + y + "," + x + ")").scale(-1).String() // cmp(y,x) <= 0
 					construct := "Sub(" + e.Term(a[0]) + ", " + e.Term(a[1]) + ", " + e.Term(a[2]) + ")"
-					pred := func(f Fact) bool { return f.Lin && (f.LE.String() == want1 || f.LE.String() == want2) }
+					// a guard established inside a helper that handed the entry back names its Value without a version (the helper
+					// has returned; had it changed the number after testing it, its own version would show): that is this
+					// function's version 0 — nothing here has touched the number yet
+					x0, y0 := strings.TrimSuffix(x, "@v{0}"), strings.TrimSuffix(y, "@v{0}")
+					want3, want4 := want1, want2
+					if x0 != x || y0 != y {
+						want3 = leAtom("cmp(" + x0 + "," + y0 + ")").String()
+						want4 = leAtom("cmp(" + y0 + "," + x0 + ")").scale(-1).String()
+					}
+					pred := func(f Fact) bool {
+						if !f.Lin {
+							return false
+						}
+						ls := f.LE.String()
+						if ls == want1 || ls == want2 {
+							return true
+						}
+						return (ls == want3 || ls == want4) && strings.Contains(f.Why, " via ")
+					}
 					if fs, ok := e.CutAt(call, pred, nil); ok {
 						c.OK(rule, FuncName(fn), construct, c.P.InstrPos(call), "guarded by "+fs[0].String())
 						continue
+					}
+					// the debit sits in a step that is handed the entry a sibling step has read and verified: judge it in every
+					// calling context (the guard is then a fact of the caller about the very object it passes down)
+					if !isExportedAPI(fn) && len(c.P.Callers[fn]) > 0 {
+						mk := func(ce *Env) func(Fact) bool {
+							cx, cy := ce.bigRef(a[1], call), ce.bigRef(a[2], call)
+							if ce.Fn != fn {
+								return func(Fact) bool { return false }
+							}
+							cx0, cy0 := strings.TrimSuffix(cx, "@v{0}"), strings.TrimSuffix(cy, "@v{0}")
+							w := map[string]bool{
+								leAtom("cmp(" + cx + "," + cy + ")").String():             true,
+								leAtom("cmp(" + cy + "," + cx + ")").scale(-1).String():   true,
+								leAtom("cmp(" + cx0 + "," + cy0 + ")").String():           true,
+								leAtom("cmp(" + cy0 + "," + cx0 + ")").scale(-1).String(): true,
+							}
+							return func(f Fact) bool { return f.Lin && w[f.LE.String()] }
+						}
+						if by, ok, _ := c.P.CutInAllContexts(fn, call, mk); ok && e.versionZeroAt(a[1], call) {
+							c.OK(rule, FuncName(fn), construct, c.P.InstrPos(call), by)
+							continue
+						}
 					}
 					// a stricter guard exists? (cmp - 1 >= 0): exact balance rejected
 					strict := leAtom("cmp(" + x + "," + y + ")").addK(-1).String()
